@@ -187,10 +187,17 @@ def case_adaptive(ctx, index, rng: random.Random):
     kw0 = {"adaptive": True}
     if shift is not None:
         kw0["bin_shift"] = shift
-    desc = {"d": d, "widths": widths, "shift": shift, "rows": gen.hexlist(rows.ravel()), "weights": wts, "cuts": idx}
+    # the same grid may be described with a shift that is whole bins away (e.g. width 0.5 with bin_shift 0 or 0.5): such
+    # operands are either refused or merged on the true common grid - never merged k bins off
+    alt_shift = d == 1 and rng.random() < 0.25 and (widths[0] * 2**20) % 1 == 0
+    desc = {"d": d, "widths": widths, "shift": shift, "rows": gen.hexlist(rows.ravel()), "weights": wts, "cuts": idx, "alt_shift": alt_shift}
+    part_no = [0]
 
     def make(lo, hi):
         kw = dict(kw0)
+        part_no[0] += 1
+        if alt_shift and part_no[0] % 2 == 0:
+            kw["bin_shift"] = (shift or 0.0) + widths[0] * rng.choice([1, 2, -1])
         if wts is not None:
             kw["weights"] = np.asarray(wts[lo:hi], dtype=float)
         if d == 1:
@@ -217,6 +224,9 @@ def case_adaptive(ctx, index, rng: random.Random):
         total, how = _combine(rng, parts, rec, desc)
         total2, how2 = _combine(rng, parts, rec, desc)
     except Exception as e:
+        if alt_shift and isinstance(e, ValueError):
+            rec.case(desc, False, cls="adaptive/alt_shift_refused")  # refusing differently described grids is fine
+            return
         rec.mon("C05.partition.equiv")
         rec.fail(monitor="C05.partition.equiv", op="combine", symptom=f"adding adaptive histograms on one grid raised {type(e).__name__}", diff=["raised"],
                  detail={"error": str(e)[:200], **desc})
